@@ -472,7 +472,7 @@ func TestVerifC15TXT(t *testing.T) {
 		}
 	}
 	// decoder alone on arbitrary bytes
-	for i, n := 0, kit.Tier(20000, 300000); i < n; i++ {
+	for i, n := 0, kit.Tier(10000, 300000); i < n; i++ {
 		b := make([]byte, rng.Intn(600))
 		rng.Read(b)
 		rec.CaseCheap("txt arbitrary " + kit.HexN(b, 8))
@@ -666,7 +666,7 @@ func TestVerifC15Messages(t *testing.T) {
 
 	// (A) generated messages whose names have at most c15SafeLabels (= the pinned decoder limit, 10) labels: pointer chains occur but can never be
 	// longer than the decoder's limit, so every failure here is a defect other than the pointer-limit one
-	nA := kit.Tier(6000, 150000)
+	nA := kit.Tier(4000, 150000)
 	for i := 0; i < nA; i++ {
 		m := c15GenMessage(rng, rec, c15SafeLabels, i%40 == 0)
 		desc := fmt.Sprintf("messageA#%d q=%d an=%d ns=%d ar=%d maxlabels=%d", i, len(m.Question), len(m.Answer), len(m.Authority), len(m.Additional), c15MaxLabels(m))
@@ -754,7 +754,7 @@ func TestVerifC15Messages(t *testing.T) {
 	}
 
 	// (E) decoder on arbitrary and on mutated bytes: no panic; what it decodes is a value the encoder must invert as well
-	nE := kit.Tier(30000, 600000)
+	nE := kit.Tier(16000, 600000)
 	for i := 0; i < nE; i++ {
 		var b []byte
 		if i%2 == 0 {
